@@ -3,7 +3,7 @@ CONSTANTS
   Files = {"d1", "d2"}
   MaxDepth = 4
   WithIPT = FALSE
-  HistLen = 14
+  HistLen = 16
   Ads <- MCAds
   Mats <- MCMats
   APT <- MCAPT
@@ -21,6 +21,7 @@ CONSTANTS
   IsoTy <- MCIsoTy
   IsoMatVer <- MCIsoMatVer
   IsoAdsVer <- MCIsoAdsVer
+  IsoTemp <- MCIsoTemp
   IsoClass <- MCIsoClass
   Traits <- MCTraits
 CHECK_DEADLOCK FALSE
